@@ -338,6 +338,21 @@ def c02_candidates(P, uni):
     _blk(P, [], 'reward-real-signature', out, all_txs=[Transaction([Input(nul, T0.inputs[0].signature)], [Output(sub, M.pk)])])
     _blk(P, [], 'reward-data-200', out, control=True, cb_tx=world.coinbase_tx(h, [(sub, M)], b'd' * 200))
     _blk(P, [], 'reward-data-201', out, cb_tx=world.coinbase_tx(h, [(sub, M)], b'd' * 201))
+    # ---- a three-step sequence (candidates are offered in list order): a block with a large fee is validated, the
+    #      low-fee list L is offered on an ancestor where its input does not exist yet (refused somewhere inside the
+    #      fee computation), then L is offered where it belongs with a reward claiming more than its own fees
+    Q = P.parent
+    while Q is not None and o in Q.utxo:
+        Q = Q.parent
+    if Q is not None and v > 10 * fee + 10:
+        big = v // 2
+        Thigh = mk_tx([(o_ref, K[0])], [(v - big, K[1])])
+        _blk(P, [Thigh], 'seq-1-high-fee-block', out, control=True, cb_outs=[(sub + big, M)])
+        n0 = len(out)
+        _blk(Q, [T0], 'seq-2-list-on-ancestor-lacking-its-input', out, cb_outs=[(refmodel.subsidy(Q.height + 1), M)], ts=P.ts + 120)
+        if len(out) > n0:
+            _blk(P, [T0], 'seq-3-reward-claims-more-than-own-fees', out, cb_outs=[(sub + fee + fee, M)])
+            _blk(P, [T0], 'seq-3b-reward-claims-earlier-blocks-fees', out, cb_outs=[(sub + big, M)])
     return [c for c in out if c.name != 'x']
 
 
